@@ -4,6 +4,7 @@
 package model
 
 import (
+	"fmt"
 	"sort"
 	"strings"
 )
@@ -195,4 +196,50 @@ func (db *DB) Exec(cmd [][]byte, now int64) Reply {
 		return Err()
 	}
 	return h(db, a)
+}
+
+// Canon returns a canonical text of the whole state (used as a cache key by history checkers).
+func (db *DB) Canon() string {
+	var sb strings.Builder
+	for _, k := range db.SortedKeys() {
+		v := db.Keys[k]
+		fmt.Fprintf(&sb, "%q:%d:", k, v.Kind)
+		switch v.Kind {
+		case KString:
+			fmt.Fprintf(&sb, "%q", v.Str)
+		case KList:
+			for _, e := range v.List {
+				fmt.Fprintf(&sb, "%q,", e)
+			}
+		case KSet:
+			ms := make([]string, 0, len(v.Set))
+			for m := range v.Set {
+				ms = append(ms, m)
+			}
+			sort.Strings(ms)
+			fmt.Fprintf(&sb, "%q", ms)
+		case KHash:
+			fs := make([]string, 0, len(v.Hash))
+			for f := range v.Hash {
+				fs = append(fs, f)
+			}
+			sort.Strings(fs)
+			for _, f := range fs {
+				fmt.Fprintf(&sb, "%q=%q,", f, v.Hash[f])
+			}
+		case KZSet:
+			for _, e := range Ordered(v.Z) {
+				fmt.Fprintf(&sb, "%q=%v,", e.Member, e.Score)
+			}
+		case KStream:
+			for _, e := range v.Stream {
+				fmt.Fprintf(&sb, "%s=%q,", e.ID, e.Fields)
+			}
+		}
+		if d, ok := db.Exp[k]; ok {
+			fmt.Fprintf(&sb, "@%d", d)
+		}
+		sb.WriteByte(';')
+	}
+	return sb.String()
 }
